@@ -53,7 +53,7 @@ def ext_lists(maxk: int) -> List[List[List[int]]]:
 # ------------------------------------------------------------------ the property, stated on a trace
 def oracle(case: Any, result: Any) -> Optional[str]:
     """Spec.Walk re-stated directly in Python on the recorded trace of the REAL visitor."""
-    fn, exts, prunes, tree = case
+    fn, exts, prunes, tree = case[:4]
     esc, trace = result[0], result[1]
     if esc == 2:
         return 'unexpected exception %s escaped' % (result[2],)
@@ -199,7 +199,39 @@ class Check(PropertyCheck):
             e = [[i + 1, self.rng.randint(0, 3)] for i in range(self.rng.randint(0, 5))]
             out.append([self.rng.randint(0, 1), e, pr, t])
         self.stats['random_larger'] = nrand
-        return out
+        # handler spelling: the same trace is required whether participants implement unknown_visit/unknown_departure,
+        # visit_ClassDef/depart_ClassDef or the lower-case fallback visit_classdef/depart_classdef
+        styled = []
+        for c in out[::7] + out[-nrand:]:
+            for style in (1, 2):
+                styled.append(c[:4] + [style])
+        self.stats['styled_cases'] = len(styled)
+        return out + styled
+
+    def sequences(self) -> List[Any]:
+        """ONE visitor instance, several walks, extensions registered between them."""
+        seqs = []
+        trees = all_trees(3)
+        n = 400 if self.tier == 'quick' else 6000
+        r = __import__('random').Random(self.seed + 19)
+        # deterministic front: walkabout, add one extension of each timing, walkabout again (all prunings of a 2-node tree)
+        for w in range(4):
+            for a1 in range(5):
+                for first_fn in (0, 1):
+                    seqs.append(['seq', r.randint(0, 2), [[first_fn, [], [], [1, [2]]],
+                                                           [0, [[1, w]], [[2, a1]] if a1 else [], [1, [2], [3]]]]])
+        for _ in range(n):
+            steps = []
+            nxt = 1
+            for k in range(r.randint(2, 4)):
+                t = r.choice(trees)
+                ns = nodes_of(t)
+                add = []
+                for _ in range(r.randint(0, 2)):
+                    add.append([nxt, r.randint(0, 3)]); nxt += 1
+                steps.append([r.randint(0, 1), add, [[x, r.randint(1, 4)] for x in ns if r.random() < 0.3], t])
+            seqs.append(['seq', r.randint(0, 2), steps])
+        return seqs
 
     def random_tree(self, n: int) -> Any:
         parents = [None] + [self.rng.randint(0, i - 1) for i in range(1, n)]
@@ -217,7 +249,7 @@ class Check(PropertyCheck):
         cases = self.cases()
         self.evaluations = len(cases)
         impl = lib.run_impl_worker('c19_visitor.py', cases, jobs=16)
-        mod = self.model('visitor', [enc(c) for c in cases])
+        mod = self.model('visitor', [enc(c[:4]) for c in cases])
         out: List[Violation] = []
         nt = 0
         for c, r, m in zip(cases, impl, mod):
@@ -235,6 +267,29 @@ class Check(PropertyCheck):
             if o and len([v for v in out if v.kind == 'oracle']) < 20:
                 out.append(Violation('oracle', o, case=c, observed=r))
         self.stats['distinct_nontrivial'] = nt
+        # sequences on one visitor: each walk must equal the model's walk with the extensions registered so far
+        seqs = self.sequences()
+        impl_seq = lib.run_impl_worker('c19_visitor.py', seqs, jobs=8)
+        flat_cases = []
+        for sq in seqs:
+            exts_so_far: List[Any] = []
+            for fn, add, prunes, tree in sq[2]:
+                exts_so_far = exts_so_far + add
+                flat_cases.append([fn, list(exts_so_far), prunes, tree])
+        flat_model = self.model('visitor', [enc(c) for c in flat_cases])
+        k = 0
+        for sq, rs in zip(seqs, impl_seq):
+            for step_result in rs:
+                c = flat_cases[k]; mm = dec(flat_model[k]); k += 1
+                if [step_result[0], step_result[1]] != [mm[0], mm[1]] and len([v for v in out if v.kind == 'correspondence']) < 20:
+                    out.append(Violation('correspondence', 'Model.Visitor and pydoctor.visitor disagree on a walk of a REUSED visitor',
+                                         case=sq, expected=[mm[0], mm[1]], observed=step_result))
+                o = oracle(c, step_result)
+                if o and len([v for v in out if v.kind == 'oracle']) < 20:
+                    out.append(Violation('oracle', 'on a reused visitor (extensions added between walks): ' + o, case=sq, observed=step_result))
+        self.evaluations += len(flat_cases)
+        self.stats['sequence_walks'] = len(flat_cases)
+        self.sample({'sequence': seqs[0]})
         for c in cases[1000:1003] + cases[-2:]:
             self.sample({'fn': c[0], 'exts': c[1], 'prunes': c[2], 'tree': c[3]})
         # builder stack discipline on generated modules
@@ -274,6 +329,16 @@ class Check(PropertyCheck):
             res = lib.run_impl_worker('c19_stack.py', {'sources': [case['source']]})
             print(json.dumps(res, indent=1))
             return 1 if res['failures'] else 0
+        if case and case[0] == 'seq':
+            rs = lib.run_impl_worker('c19_visitor.py', [case])[0]
+            bad = 0
+            exts_so_far = []
+            for (fn, add, prunes, tree), r in zip(case[2], rs):
+                exts_so_far = exts_so_far + add
+                o = oracle([fn, exts_so_far, prunes, tree], r)
+                print('walk', fn, 'exts', exts_so_far, 'prunes', prunes, 'tree', tree, '->', r, '|', o or 'holds')
+                bad += bool(o)
+            return 1 if bad else 0
         r = lib.run_impl_worker('c19_visitor.py', [case])[0]
         o = oracle(case, r)
         print('case    :', case)
